@@ -24,6 +24,7 @@ lists, u32::from_str_radix(_, 16) over hex-digit characters, char::from_u32, cha
 Range<i32> iteration.
 """
 import itertools
+import os
 import re
 import time
 
@@ -240,10 +241,10 @@ def shapes(tier):
             for L in range(0, maxlen + 1):
                 if n == 1 and L == 0:
                     continue            # `""`: an even run of quotes (covered as the n = 2 case below)
-                for fs in itertools.product(forms, repeat=L):
-                    if L == 3 and tier != "quick" and sum(f.startswith("U") for f in fs) > 1 and any(f in ("U2", "U3", "U5") for f in fs):
-                        continue        # thorough: at most one of the middle \u lengths per triple (keeps the family at a few thousand)
-                    for tail in ((True, False) if (tier != "quick" or L <= 1) else (True,)):
+                if L == 3 and n == 5:
+                    continue            # thorough: triples only under delimiters of 1 and 3 quotes
+                for fs in itertools.product(forms if L < 3 else FORMS_QUICK, repeat=L):
+                    for tail in ((True, False) if (L <= 1 or (tier != "quick" and L <= 2)) else (True,)):
                         yield q, n, fs, tail
             # longer contents of plain characters only (runs of quotes shorter than the delimiter inside the text)
             for L in range(maxlen + 1, (6 if tier == "quick" else 8)):
@@ -264,7 +265,7 @@ def check_strlex(R, drv, tier):
     except Inconclusive as e:
         R.engine_error(f"K-strlex: {e}")
         return
-    nshape = nexits = nviol = 0
+    nshape = nexits = nviol = nprobe = 0
     acc = None
     seen = set()
 
@@ -318,8 +319,13 @@ def check_strlex(R, drv, tier):
 
     todo = list(shapes(tier))
     evens = [(q, n, tail) for q in (DQ, SQ) for n in ((2,) if tier == "quick" else (2, 4)) for tail in (True, False)]
+    budget = float(os.environ.get("VERIF_KERNEL_BUDGET_S", "0") or 0) or (2400.0 if tier == "thorough" else 1200.0)
+    planned = len(todo) + len(evens)
     try:
-        for item in todo + [("even",) + e for e in evens]:
+        for item in [("even",) + e for e in evens] + todo:
+            if time.time() - t0 > budget:
+                R.cov.setdefault("bounds", {})["K-strlex-stopped"] = f"time budget of {budget:.0f} s reached after {nshape} of {planned} shapes; the rest was not explored in this run"
+                break
             if item[0] == "even":
                 _, q, n, tail = item
                 fs = ()
@@ -329,6 +335,21 @@ def check_strlex(R, drv, tier):
                 I, ch, exp, pre, end = run_shape(q, n, fs, tail)
             nshape += 1
             good = 0
+            # translator validation on a concrete point of this shape: the real lexer against the documented value
+            sv = z3.Solver()
+            sv.add(*pre)
+            for c in ch:
+                if not z3.is_bv_value(c) and ("_p" in str(c) or "_tail" in str(c)):
+                    sv.add(z3.Or(z3.And(z3.UGE(c, 0x61), z3.ULE(c, 0x7A)), c == 0x20) if "_tail" in str(c) else z3.And(z3.UGE(c, 0x61), z3.ULE(c, 0x7A)))
+            if sv.check() == z3.sat:
+                mdl = sv.model()
+                src0 = "".join(chr(mdl.eval(c, model_completion=True).as_long()) for c in ch)
+                want0 = "".join(chr(mdl.eval(c, model_completion=True).as_long()) for c in exp)
+                r0 = drv.req(op="lex", prql=src0)
+                tk0 = r0.get("tokens") or []
+                if r0.get("ok") and len(tk0) >= 2 and isinstance(tk0[1].get("kind"), dict) and tk0[1]["kind"].get("Literal", {}).get("String") == want0 \
+                        and tk0[1]["span"]["end"] == len(src0[:end].encode("utf-8")):
+                    nprobe += 1
             for e in I.exits:
                 nice = []
                 for c in ch:
@@ -385,6 +406,9 @@ def check_strlex(R, drv, tier):
     if acc is not None:
         _account(R, acc, "K-strlex")
     R.cov["states"] = R.cov.get("states", 0) + nexits
+    R.cov["concrete_probes_validated"] = R.cov.get("concrete_probes_validated", 0) + nprobe
+    if nprobe < nshape // 2:
+        R.engine_error(f"K-strlex self-test: only {nprobe} of {nshape} concrete probes lex to the documented value in the real lexer")
     R.sample({"kernel": "K-strlex", "shapes": nshape, "exits": nexits, "property": "for every enumerated shape (quote, delimiter length, element forms) and all characters / hex digits "
               "within it, the string reader returns exactly the documented characters and stops right behind the closing delimiter", "wall_s": round(time.time() - t0, 2)})
     R.cov.setdefault("bounds", {})["K-strlex"] = (f"{nshape} shapes: quotes ' and \", delimiter lengths {'1,3' if tier == 'quick' else '1,3,5'} (+ even runs), content of at most "
